@@ -169,6 +169,35 @@ def bounded(pb, interp, rng, tier):
                 fail("Phase.__array_ufunc__", "divmod.identity", f"divmod({parts(p)}, {d})", f"fd={float(fdv)} rem={float(er)} want fd={fd_want} rem={float(rem_want)}")
             if exact(rem2) != er or Fraction(float(getattr(fd2, "value", fd2))) != fdv:
                 fail("Phase.__array_ufunc__", "divmod.consistency", f"{parts(p)} // and % {d}", "operators disagree with np.divmod")
+    # ---- negative divisors (a negative remainder is then the legitimate result) and divisors given as arrays
+    for pv, dv in (((10.0, 0.3), -3.0), ((10.0, 0.3), -0.25), ((-7.0, 0.125), -2.0), ((2.0 ** 40, 0.25), -3.0)):
+        ev += 1
+        distinct.add(("divmod-negative", pv, dv))
+        try:
+            p_ = Phase(*pv)
+            ep_ = exact(p_)
+            fd, rem = np.divmod(p_, dv * u.cycle)
+            fdv = Fraction(float(getattr(fd, "value", fd)))
+            want_fd = math.floor(ep_ / fr(dv))
+            if fdv != want_fd or abs(exact(rem) - (ep_ - want_fd * fr(dv))) > 2 * EPS:
+                fail("Phase.__array_ufunc__", "divmod.negative-divisor", f"divmod(Phase{pv}, {dv})", f"fd={float(fdv)} rem={float(exact(rem))} want fd={want_fd}")
+        except Exception as e:
+            fail("Phase.__array_ufunc__", "divmod.negative-divisor.raises", f"divmod(Phase{pv}, {dv})", f"{type(e).__name__}: {str(e)[:80]}")
+    # ---- factor / divisor arrays are arguments: bit-identical afterwards, and the same result when reused
+    for what, mk in (("imag-phase*imag-array", lambda a: Phase(3j, .25j) * a), ("imag-phase/imag-array", lambda a: Phase(3j, .25j) / a), ("phase*real-array", lambda a: Phase(3, .25) * a)):
+        arr = np.array([2j, -3j, .5j]) if "imag-array" in what else np.array([2.0, -3.0, .5])
+        a0 = arr.copy()
+        ev += 1
+        distinct.add(("operand-unchanged", what))
+        try:
+            r1 = mk(arr)
+            r2 = mk(arr)
+            if not np.array_equal(arr, a0):
+                fail("Phase.from_angles", "operand-array-mutated", what, f"{a0} -> {arr}")
+            elif not np.array_equal(np.asarray(r1.view(np.ndarray)), np.asarray(r2.view(np.ndarray))):
+                fail("Phase.from_angles", "operand-array-reuse-differs", what, "second use of the same array gives another result")
+        except Exception as e:
+            fail("Phase.from_angles", "operand-array.raises", what, f"{type(e).__name__}: {str(e)[:80]}")
     # ---- the same with a Phase as divisor, a Quantity as dividend, and in place
     for what, thunk, want_fd, want_rem in (
             ("floordiv-by-phase", lambda: Phase(10, .25) // Phase(3), 3, None),
